@@ -547,6 +547,33 @@ def extract_memfun_pass(incdir):
     return "MPUnrecognised", verdicts
 
 
+def extract_signal_connect(incdir):
+    """each signal_connect() overload: (kind of its callable parameters, the functor factory its body hands to
+    signal.connect(), whether the factory receives exactly the overload's own parameters in order)"""
+    objs, err = clang_ast("signal_connect", incdir)
+    rows = []
+    for o in objs:
+        for f in find_all(o, lambda n: n.get("kind") == "FunctionDecl" and n.get("name") == "signal_connect"):
+            params = [c for c in f.get("inner", []) if c.get("kind") == "ParmVarDecl"]
+            names = [p.get("name") for p in params]
+            kind = "fun" if len(params) == 2 else ("const_mem" if len(params) == 3 and params[1].get("type", {}).get("qualType", "").startswith("const ") else ("mem" if len(params) == 3 else "Unrecognised"))
+            factory, inorder = "Unrecognised", False
+            rets = find_all(f, lambda n: n.get("kind") == "ReturnStmt")
+            stmts = [c for c in f.get("inner", []) if c.get("kind") == "CompoundStmt"]
+            body_stmts = (stmts[0].get("inner") or []) if stmts else []
+            if len(rets) == 1 and len(body_stmts) == 1:
+                calls = find_all(rets[0], lambda n: n.get("kind") in ("CallExpr", "CXXMemberCallExpr"))
+                if len(calls) == 2 and callee_name(calls[0]) == "connect":
+                    inner = calls[1]
+                    outer_args = (calls[0].get("inner") or [])[1:]
+                    if len(outer_args) == 1 and outer_args[0] is inner or (len(outer_args) == 1 and find_all(outer_args[0], lambda n: n is inner)):
+                        factory = callee_name(inner) or "Unrecognised"
+                        args = [(a.get("kind"), (a.get("referencedDecl") or {}).get("name")) for a in (inner.get("inner") or [])[1:]]
+                        inorder = args == [("DeclRefExpr", n) for n in names[1:]]
+            rows.append((kind, factory, inorder))
+    return sorted(rows)
+
+
 def extract_pp(incdir):
     """preprocessor conditionals of the library sources (header guards excluded) and the names that
     exist only when deprecated API is enabled"""
@@ -597,6 +624,7 @@ def generate(incdir, outpath):
     cs = extract_callsig(incdir)
     pp_conds, dep_only = extract_pp(incdir)
     casts = extract_casts(incdir)
+    sigconn = extract_signal_connect(incdir)
     mf_pass, mf_verdicts = extract_memfun_pass(incdir)
     L = []
     L.append("(* GENERATED by translate/cxx2coq.py from %s -- do not edit. *)" % REPO)
@@ -685,6 +713,10 @@ def generate(incdir, outpath):
     L.append("Definition gen_casts : list (string * string * string * string) := [")
     L.append(";\n".join("  (%s, %s, %s, %s)" % tuple(coq_str(x) for x in row) for row in casts))
     L.append("].")
+    L.append("(* signal_connect overloads: kind of callable, factory handed to signal.connect(), own parameters passed on in order *)")
+    L.append("Definition gen_signal_connect : list (string * string * bool) := [")
+    L.append(";\n".join("  (%s, %s, %s)" % (coq_str(k), coq_str(fa), "true" if io else "false") for k, fa, io in sigconn))
+    L.append("].")
     L.append("(* %d two-parameter mem_fun factories: %s *)" % (len(mf_verdicts), " ".join(mf_verdicts)))
     L.append("Definition gen_memfun_pass : memptr_pass := %s." % mf_pass)
     L.append("Definition gen_deprecated_only : list string := [%s]." % "; ".join(coq_str(n) for n in dep_only))
@@ -696,7 +728,7 @@ def generate(incdir, outpath):
             fh.write(text)
     return {"visitors": vis, "classes": {k: {"fields": v["fields"], "modes": [hop_mode(o) for o in v["ops"]],
                                              "slices": [s for o in v["ops"] for s in o["slices"]]} for k, v in cls.items()},
-            "take": take, "casts": casts, "memfun_pass": [mf_pass, mf_verdicts], "globals": glob, "callsig": cs, "pp_conditionals": pp_conds, "deprecated_only": dep_only, "digest": hashlib.sha256(text.encode()).hexdigest()[:16], "changed": old != text}
+            "take": take, "casts": casts, "signal_connect": sigconn, "memfun_pass": [mf_pass, mf_verdicts], "globals": glob, "callsig": cs, "pp_conditionals": pp_conds, "deprecated_only": dep_only, "digest": hashlib.sha256(text.encode()).hexdigest()[:16], "changed": old != text}
 
 
 if __name__ == "__main__":
